@@ -1,5 +1,5 @@
 (* C03 - Everything the authenticator emits is CTAP2 canonical CBOR. *)
-From Ctap Require Import Base Schema Wire Typed Procs Inst Tables ProcTables Canonical WireP SerP FramingP C03P.
+From Ctap Require Import Base Schema Wire Typed Procs Inst Tables ProcTables Canonical WireP SerP FramingP C03P ObSerRole ObDeclOrder.
 Local Open Scope string_scope.
 Local Open Scope Z_scope.
 
@@ -51,12 +51,12 @@ Proof. exact put_head_cases. Qed.
 
 (* the same for the environment regenerated from /repo *)
 Theorem c03_generated_structs_ordered : forallb (fun f => structs_ordered (gen_env f)) all_feats = true.
-Proof. vm_compute. reflexivity. Qed.
+Proof. exact generated_structs_ordered. Qed.
 
 (* tie to the source *)
 Theorem c03_generated_conforms :
   forallb (fun f => env_conforms_role decl_ser (gen_env f) (spec_env f)) all_feats = true.
-Proof. exact generated_ser_conforms. Qed.
+Proof. exact generated_ser_role. Qed.
 
 Theorem c03_generated_decl_order : forallb (fun f => decl_order_canonical (gen_env f)) all_feats = true.
 Proof. exact generated_decl_order. Qed.
